@@ -333,7 +333,7 @@ fn composite<C: Suite, T: Wire + PartialEq + std::fmt::Debug>(v: &T, tag: &str, 
                     }
                 }
                 val["header"]["version"] = json!(0);
-                for other in OTHER_IDS.iter().filter(|o| **o != C::ID).map(|s| s.to_string()).chain([C::ID.to_lowercase(), format!("{} ", C::ID), String::new()]) {
+                for other in OTHER_IDS.iter().filter(|o| **o != C::ID).map(|s| s.to_string()).chain([C::ID.to_lowercase(), format!("{} ", C::ID), String::new(), "\u{0444}".repeat(40), format!("x{}", "\u{6f22}".repeat(30)), format!("{}\u{00e9}", C::ID)]) {
                     if other == C::ID {
                         continue;
                     }
